@@ -649,7 +649,7 @@ def gen_cases(ctx, table):
         if thorough:  # up to 4 names per side: single requests
             for specs in comp2:
                 if is_canonical(specs) and max(len(x) for s in specs for x in s) > 2:
-                    for tree in trees_for(specs, False, nested=False) + [["chain", [["chain", [0]], 1]]]:
+                    for tree in [t for t in trees_for(specs, False, nested=False) if t[0] in CHAINLIKE] + [["chain", [["chain", [0]], 1]]]:
                         ins, outs = tree_io(tree, specs)
                         for h in histories(ins, outs, 0)[1:]:
                             yield mk("P2", specs, tree, h)
@@ -709,7 +709,7 @@ def gen_cases(ctx, table):
                         yield mk("P4", specs, tree, h, reps=reps)
                     if thorough:
                         yield mk("P4", specs, tree, hs[0], reps=reps, sizes=SIZES_QUICK[2])
-                for sizes in size_sets if thorough or not threads else size_sets[2:]:
+                for sizes in size_sets[2:] if threads and not thorough else size_sets[::3] if threads else size_sets:
                     for h in hs[:2] if thorough else hs[:1]:
                         yield mk("P4", specs, tree, h, sizes=sizes)
         # three disciplines, mixed representations along a chain
@@ -752,11 +752,11 @@ def run(ctx):
         + (" and (reduced) every other kind" if th else "")
         + ": all->all and subset->all after moving one chain input (each in turn), subset->all (same" + ("/moved" if th else "") + " point), all->subset (" + ("same/" if th else "") + "moved point), "
         + ("subset->full, " if th else "") + "every ordered pair of singleton requests" + (" (disjoint ones also at a moved point)" if th else " (chain[chain,D]: disjoint pairs only)")
-        + ("; representatives with 3-4 names on a side: singleton and full requests" if th else ""),
+        + ("; representatives with 3-4 names on a side as chain/mda/chain[chain,D]: singleton and full requests" if th else ""),
         "P3": "three disciplines, <= 2 reads, " + ("<= 2 writes: every composition (10^6, every sort order) as MDOChain; single-write representatives as every other kind incl. 6 nestings" if th else "1 write: representatives x every kind incl. 4 nestings") + ", all Jacobians",
         "P3r": "three single-write disciplines (representatives) as MDOChain/MDAChain" + ("/chain[chain,D]/chain[D,par]" if th else "") + ": singleton and full requests; all Jacobians, then all Jacobians after moving one chain input (each in turn)" + (", singleton request then all Jacobians at a moved point" if th else ""),
         "P4": "representatives with <= 2 names per side x every kind: " + ("all 8" if th else "5") + " non-dense representation pairs over {dense, csr, JacobianOperator}, "
-        + ("all 15" if th else "3") + " other size assignments in {1,2}^4; 5 representation mixes along 3-discipline chains",
+        + ("all 15 (5 for the thread-based kinds)" if th else "3 (1 for the thread-based kinds)") + " other size assignments in {1,2}^4; 5 representation mixes along 3-discipline chains",
         "P5": "JSON grammars (the default) on the representatives with <= 2 names per side x {chain, par, add, mda}",
         "cases_generated": n,
         "value_table": table,
